@@ -327,6 +327,31 @@ pub fn c12(tier: Tier) -> Vec<Case> {
             }
         }
     }
+    // box markers on some mentions of a field only (any marked mention boxes the field), in every order
+    {
+        let leaves = c02_leaves();
+        let inputs = InputSpec::Strings { alphabet: vec!['a', 'b', 'c'], max_len: 4 };
+        let mention = |boxed: bool, name: &str, rule: &str| if boxed { bfield(name, rule) } else { field(name, rule) };
+        for m1 in [false, true] {
+            for m2 in [false, true] {
+                for m3 in [false, true] {
+                    let bodies = vec![
+                        choice(vec![seq(vec![lit("c"), mention(m1, "v", "X")]), mention(m2, "v", "X")]),
+                        seq(vec![mention(m1, "v", "X"), lit("a"), mention(m2, "v", "X"), opt(mention(m3, "v", "X"))]),
+                        choice(vec![seq(vec![lit("a"), mention(m1, "v", "X")]), mention(m2, "v", "Y"), seq(vec![lit("c"), mention(m3, "v", "X")])]),
+                        choice(vec![seq(vec![lit("a"), if m1 { bover("X") } else { over("X") }]), if m2 { bover("X") } else { over("X") }]),
+                        seq(vec![star(mention(m1, "v", "X")), lit("a"), opt(mention(m2, "v", "X"))]),
+                    ];
+                    for body in bodies {
+                        let mut l = vec![Rule::normal("R", vec![Directive::NoSkipWs], body)];
+                        l.extend(leaves.iter().cloned());
+                        let g = root_grammar(vec![Directive::Export, Directive::NoSkipWs], seq(vec![field("r", "R"), opt(field("t", "R"))]), &l);
+                        add_if_wf(&mut b, "box-markers", g, &inputs);
+                    }
+                }
+            }
+        }
+    }
     let pool = ['\r', '\n', '\t', 'b', '\\', '\''];
     let inputs = InputSpec::Strings { alphabet: vec!['\r', '\n', '\t', 'b', '\\', '\''], max_len: 3 };
     let spell = |c: char, escaped: bool| -> LitChar {
